@@ -65,7 +65,7 @@ class FakeSys(object):
 
 REPLAY_HEAD = '''# replay of a counterexample found by /verif (property C09) on the real rpyc
 import sys, types, builtins
-sys.path.insert(0, "/repo")
+sys.path.insert(0, __import__("os").environ.get("VERIF_REPO", "/repo"))
 from rpyc.core import vinegar, brine
 import rpyc
 log = []
